@@ -33,6 +33,9 @@ THEOREMS = [
     "Mpc.C09_levels_yao",
     "Mpc.C09_gmw_schedule",
     "Mpc.C09_target_equivalence_fails",
+    "Mpc.Graph.compute_eq_of_sols",
+    "Mpc.C09_constPropagate_preserves",
+    "Mpc.C09_prune_preserves",
 ]
 
 
@@ -178,6 +181,10 @@ def run(ctx):
         ctx.oblige("generator: >= 85%% of generated programs compile", c.get("programs_gen", 0) * 100 >=
                    85 * (c.get("programs_gen", 0) + c.get("compile_fail_gen", 0)) and c.get("programs_gen", 0) > 0,
                    "ok=%s fail=%s" % (c.get("programs_gen"), c.get("compile_fail_gen")))
+        npass = {k: c.get("pass_ops_" + k, 0) for k in ("cp", "sc", "prune", "compile-yao", "compile-gmw")}
+        ctx.coverage["pass_model_ops"] = npass
+        ctx.oblige("pass models (Model/Passes.lean) were run against the real ConstPropagate / ShortCircuitXORZero / "
+                   "Prune / Compile on dumped builder graphs (%s)" % npass, all(v > 0 for v in npass.values()), str(npass))
         need = ["feat_*", "feat_/", "feat_%", "feat_if", "feat_for", "feat_identity", "feat_dead", "feat_<<", "feat_>>",
                 "feat_cmp", "feat_cast", "programs_exhaustive", "programs_sampled", "pair_ops_raw-on", "pair_ops_off-on"]
         missing = [k for k in need if not c.get(k)]
